@@ -181,10 +181,8 @@ def r1_line_comment_discipline(w):
                             break
                         if tk[0] in ('nil', 'space', 'line', 'line_', 'softline', 'softline_'):
                             continue
-                        if tk[0] == 'top':
-                            break        # unknown document: undecided here
                         bad = 'the returned document continues with %s right after the comment (only %s in between)' % (
-                            tk[1] if tk[0] == 'lit' else tk[0], [x[0] for x in toks[idx[-1] + 1:toks.index(tk)]] or 'nothing')
+                            ('`%s`' % tk[1]) if tk[0] == 'lit' else ('another document' if tk[0] == 'top' else tk[0]), [x[0] for x in toks[idx[-1] + 1:toks.index(tk)]] or 'nothing')
                         break
                     if bad:
                         break
@@ -198,6 +196,12 @@ def r1_line_comment_discipline(w):
                 r.ok(cons, 'a hard line break follows a final line comment on all %d evaluated layouts' % n_paths)
     if n_sub < 2:
         raise AnchorMissing('converters iterating a sub-sequence of children (found %d)' % n_sub)
+    # the evaluation above takes "the space after the comment contains a line break" from the text predicate: it has to be the lexer's notion
+    for ok, cons, key, why, loc in e2.linebreak_predicate_obligations(w):
+        if ok:
+            r.ok(cons, why)
+        else:
+            r.bad(cons, key, why, loc)
     if n_sites < 30:
         raise AnchorMissing('comment-emitting sites for the sequence rule (found %d)' % n_sites)
     # printers: Linebreak items become hard lines
